@@ -272,17 +272,26 @@ def sub_(x, y):
 
 @binaryop(ast.Add, [datetime.date, int], datetime.date)
 def add_date_int(x, y):
-    return x + datetime.timedelta(days=y)
+    try:
+        return x + datetime.timedelta(days=y)
+    except OverflowError:
+        return None
 
 
 @binaryop(ast.Add, [int, datetime.date], datetime.date)
 def add_int_date(x, y):
-    return y + datetime.timedelta(days=x)
+    try:
+        return y + datetime.timedelta(days=x)
+    except OverflowError:
+        return None
 
 
 @binaryop(ast.Sub, [datetime.date, int], datetime.date)
 def sub_date_int(x, y):
-    return x - datetime.timedelta(days=y)
+    try:
+        return x - datetime.timedelta(days=y)
+    except OverflowError:
+        return None
 
 
 @binaryop(ast.Sub, [datetime.date, datetime.date], int)
